@@ -40,10 +40,23 @@ package encryption
 //@   safety
 //@   ensures err == nil ==> len(w) == wrapLen(len(dek))
 
+// (a data key is only ever what THIS handler's master key unwraps from THIS wrapped key: a value sealed under another
+//  master key must fail here, whatever was unwrapped before)
+//@ ghost var unwrapper *subtle.KWP
+//@ ghost var unwrappedFrom []byte
+//@ ghost var unwrappedKey []byte
+//@ ghost var unwrapErr error
 //@ func (*LocalEncryptionHandler).unwrapDEK serves C17
 //@   returns (k, err)
 //@   requires handler != nil && handler.keyWrapper != nil
 //@   safety
+//@   modifies ghost.unwrapper, ghost.unwrappedFrom, ghost.unwrappedKey, ghost.unwrapErr, computed
+//@   ghost at entry: ghost.unwrapper := nil
+//@   ghost after call Unwrap: ghost.unwrapper := arg0
+//@   ghost after call Unwrap: ghost.unwrappedFrom := arg1
+//@   ghost after call Unwrap: ghost.unwrappedKey := ret0
+//@   ghost after call Unwrap: ghost.unwrapErr := ret1
+//@   ensures [the-data-key-is-what-this-handler's-master-key-unwraps] err == nil ==> ghost.unwrapper == handler.keyWrapper && ghost.unwrappedFrom == wrappedDEK && ghost.unwrapErr == nil && k == ghost.unwrappedKey
 
 // Seal: the first byte really is the length of the wrapped key (no truncation by byte()),
 // and the output has room for exactly key-size byte, wrapped key, nonce, ciphertext and tag.
